@@ -15,6 +15,8 @@ import (
 )
 
 type fnInfo struct {
+	slotOnce  sync.Once
+	slots     map[ssa.Value]int
 	name      string
 	class     int // 0 interpreted, 1 intrinsic, 2 stub
 	intrinsic intrinsicFn
@@ -187,4 +189,41 @@ func readOverlayDir(dir, target string, overlay map[string][]byte) error {
 // isRepoPkg reports whether fn belongs to the repository under test (never tolerated).
 func (p *Program) isRepoPkg(fn *ssa.Function) bool {
 	return fn.Pkg != nil && strings.HasPrefix(fn.Pkg.Pkg.Path(), "github.com/tokenized/bitcoin_reader")
+}
+
+// slotsOf numbers every SSA value of fn (parameters, free variables, locals, value instructions).
+func (info *fnInfo) slotsOf(fn *ssa.Function) map[ssa.Value]int {
+	info.slotOnce.Do(func() {
+		m := map[ssa.Value]int{}
+		add := func(v ssa.Value) {
+			if _, ok := m[v]; !ok {
+				m[v] = len(m)
+			}
+		}
+		for _, p := range fn.Params {
+			add(p)
+		}
+		for _, f := range fn.FreeVars {
+			add(f)
+		}
+		for _, l := range fn.Locals {
+			add(l)
+		}
+		for _, b := range fn.Blocks {
+			for _, in := range b.Instrs {
+				if v, ok := in.(ssa.Value); ok {
+					add(v)
+				}
+			}
+		}
+		if fn.Recover != nil {
+			for _, in := range fn.Recover.Instrs {
+				if v, ok := in.(ssa.Value); ok {
+					add(v)
+				}
+			}
+		}
+		info.slots = m
+	})
+	return info.slots
 }
